@@ -501,6 +501,20 @@ def histories(ctx, kind, owned, cap=None, thorough_len=4, seeds=(1, 2, 3, 4, 5, 
     return traces
 
 
+def prove(ctx):
+    """the memo discipline for histories of ANY length: spec/HistoryProof.tla, checked by the TLA+ proof system"""
+    from . import core
+    if "history_proof" in ctx.notes:
+        return
+    n, ok, out = core.run_tlapm("HistoryProof", ctx.workdir)
+    if "TLAPM-NOT-INSTALLED" in out:
+        ctx.notes["history_proof"] = "tlapm not available: the unbounded theorem was not re-checked in this run"
+        return
+    if not ok:
+        raise core.MachineryError("tlapm does not prove spec/HistoryProof.tla:\n" + "\n".join(out.splitlines()[-30:]))
+    ctx.notes["history_proof"] = "tlapm: all %d obligations of HistoryProof (StoreIsCurrent inductive, AnswerIsIdeal) proved" % n
+
+
 def check(ctx, kind, owned, families, selftest=False, cap=None):
     """what a property's check adds: model-check + export + replay + validation + judgement of the histories of `kind` that end
     in a read the property owns; returns the number of histories replayed"""
@@ -533,6 +547,7 @@ def check(ctx, kind, owned, families, selftest=False, cap=None):
             if not r.invariant_violated:
                 raise core.MachineryError("history selftest: %s does not violate ReadsAreIdeal" % cfg)
         ctx.notes["history_selftest"] = "corrupted histories rejected; memo mutants violate ReadsAreIdeal"
+        prove(ctx)
     return len(traces)
 
 
